@@ -1,6 +1,8 @@
 #!/bin/bash
 # usage: trymut.sh <patch.diff> <prop> [<prop>...]   -- applies the patch to /repo, runs the quick checks, reverts
 set -u
+export VEKVERIF_EVIDENCE=/tmp/vekverif/ev_mut
+mkdir -p $VEKVERIF_EVIDENCE
 patch=$1; shift
 git -C /repo apply "$patch" || { echo "patch does not apply"; exit 3; }
 trap 'git -C /repo checkout -- . ' EXIT
